@@ -49,3 +49,28 @@ pub fn render(c: i128, ts: TimeScale) -> String {
 
 pub const MONTHS: [&str; 12] = ["January", "February", "March", "April", "May", "June", "July", "August", "September", "October", "November", "December"];
 pub const WEEKDAYS: [&str; 7] = ["Monday", "Tuesday", "Wednesday", "Thursday", "Friday", "Saturday", "Sunday"];
+
+/// human-readable form of a duration of `v` ns
+pub fn render_duration(v: i128) -> String {
+    if v == 0 {
+        return "0 ns".to_string();
+    }
+    let (sign, d, h, m, s, ms, us, ns) = super::dur::decompose(v);
+    let mut out = String::new();
+    if sign < 0 {
+        out.push('-');
+    }
+    let vals = [d, h, m, s, ms, us, ns];
+    let units = [if d > 1 { "days" } else { "day" }, "h", "min", "s", "ms", "μs", "ns"];
+    let mut first = true;
+    for (val, unit) in vals.iter().zip(units.iter()) {
+        if *val > 0 {
+            if !first {
+                out.push(' ');
+            }
+            out.push_str(&format!("{val} {unit}"));
+            first = false;
+        }
+    }
+    out
+}
